@@ -64,6 +64,102 @@ def _rows(chunk):
     return out
 
 
+def _seq_rows(chunk):
+    """Sequences of requests over ONE connection (one persistent KmipSession) while the scripted SLUGS services change
+    their answers between the requests."""
+    from kmip.services.server.auth import slugs as slugs_mod
+    common.scratch()
+    drv = D.EngineDriver(intern=E.new_interner())
+    out = []
+    try:
+        req = D.one("Create", {"otype": "SymmetricKey", "attrs": [
+            {"name": "Cryptographic Algorithm", "v": "AES"}, {"name": "Cryptographic Length", "v": 128},
+            {"name": "Cryptographic Usage Mask", "v": ["ENCRYPT"]}]})
+        valid = A.encode(A.build_request(req, drv.intern), A.KV((1, 2)))
+        cert = S.make_cert(1, EKU["client"])
+        for seq in chunk:
+            settings, behaviour = plugin_settings(seq[0]["cfg"]["plugins"])
+            slugs = S.Slugs(dict(behaviour))
+            spy = S.EngineSpy(drv.engine)
+            conn = S.Connection(spy, cert, tls_client_auth=True, auth_settings=settings)
+            old = slugs_mod.requests.get
+            slugs_mod.requests.get = slugs
+            obs = []
+            try:
+                for row in seq:
+                    _, b = plugin_settings(row["cfg"]["plugins"])
+                    slugs.behaviour.clear()
+                    slugs.behaviour.update(b)
+                    n0 = len(spy.calls)
+                    before = drv.state()
+                    sent = conn.exchange(valid)
+                    after = drv.state()
+                    reason = ""
+                    if len(sent) >= 1:
+                        try:
+                            reason = A.abs_response(A.decode_response(sent[0]), drv.intern)["items"][0]["reason"]
+                        except Exception as e:
+                            reason = "undecodable response: %r" % (e,)
+                    ident = spy.calls[n0] if len(spy.calls) > n0 else None
+                    obs.append({"called": len(spy.calls) - n0, "user": ident[0] if ident else "",
+                                "groups": (list(ident[1]) if ident[1] is not None else ["-nogroups-"]) if ident else ["-nogroups-"],
+                                "reason": reason, "nresp": len(sent), "escaped": list(conn.escaped),
+                                "changed": len(after["objs"]) != len(before["objs"]) or after["seq"] != before["seq"]})
+            finally:
+                slugs_mod.requests.get = old
+            out.append({"seq": seq, "obs": obs})
+    finally:
+        drv.close()
+    return out
+
+
+def sequences(run, quick):
+    cfg = tlc.write_cfg("MC_C17Seq.cfg", "SPECIFICATION SeqSpec\nCONSTANT SeqLen = 2\nINVARIANT SeqHolds\nINVARIANT SeqEmit\nCHECK_DEADLOCK FALSE\n")
+    res = tlc.run("MC_C17Seq", cfg, workers=1, allow_violation=True, timeout=1800)
+    run.add_tlc(res, "MC_C17Seq: pairs of requests on one connection, plugin answers changing in between")
+    if res.violated:
+        raise common.MachineryFailure("Session.tla: the modelled message loop violates C17 on sequences: %s" % res.violated)
+    seqs = res.tag("SEQ")
+    if len(seqs) != res.distinct:
+        raise common.MachineryFailure("MC_C17Seq: %d rows printed for %d sequences" % (len(seqs), res.distinct))
+    if quick:
+        # all single-plugin pairs, every 5th two-plugin pair
+        seqs = [q for i, q in enumerate(seqs) if len(q[0]["cfg"]["plugins"]) == 1 or i % 5 == 0]
+    n = common.NCPU
+    with multiprocessing.Pool(n) as pool:
+        outs = pool.map(_seq_rows, [seqs[i::n] for i in range(n)])
+    nrun = 0
+    for out in outs:
+        for o in out:
+            for i, (row, ob) in enumerate(zip(o["seq"], o["obs"])):
+                nrun += 1
+                est, want = row["established"], row["groups"]
+                sig = {"seq": [r["cfg"]["plugins"] for r in o["seq"]], "request": i + 1}
+                bad = []
+                if ob["called"]:
+                    if not est:
+                        bad.append("C17_entry")
+                    elif ob["user"] != "alice" or ob["groups"] != want:
+                        bad.append("C17_identity")
+                    if ob["called"] > 1:
+                        bad.append("C17_entered_twice")
+                if not est:
+                    if ob["called"] or ob["changed"]:
+                        bad.append("C17_refusal")
+                    if ob["reason"] != "AuthenticationNotSuccessful":
+                        bad.append("C17_reason")
+                if est and not ob["called"]:
+                    run.note_drift({"what": ["established-but-not-served"], "cfg": sig, "reason": ob["reason"]})
+                if ob["nresp"] != 1 or ob["escaped"]:
+                    bad.append("C17_one_response")
+                for c in bad:
+                    run.violation(c, sig, {"sequence": [r["cfg"] for r in o["seq"]], "request": i + 1, "observed": o["obs"],
+                                           "prescribed": {"established": est, "groups": want}})
+                run.case(common.jdump(sig))
+    run.traces += nrun
+    run.extra["requests_in_sequences_on_real_session"] = nrun
+
+
 def check(run, tier):
     quick = tier == "quick"
     maxp = 2 if quick else 3
@@ -130,4 +226,5 @@ def check(run, tier):
                 run.sample({"configuration": cfg, "observed": {k: o[k] for k in ("called", "user", "groups", "reason", "changed")}})
     run.traces += nrun
     run.extra["rows_executed_on_real_session"] = nrun
+    sequences(run, quick)
     run.assumptions.append("SLUGS outcomes modelled: ok, user 404, groups 404, unreachable, groups body not JSON (other HTTP statuses are outside the menu)")
